@@ -1,10 +1,16 @@
 package main
 
 import (
+	"context"
 	"fmt"
 	"math"
 	"math/rand"
 	"strings"
+
+	"github.com/mattn/anko/ast"
+	"github.com/mattn/anko/env"
+	"github.com/mattn/anko/parser"
+	"github.com/mattn/anko/vm"
 
 	"veriftools/internal/vals"
 )
@@ -283,5 +289,68 @@ func streamOps(o *Out, r *rand.Rand, n int, thorough bool) {
 	}
 	for i := 0; i < n; i++ {
 		emit(mk(3), "tree")
+	}
+	// 4. result sweep (implementation only): every operator producing each integer of a dense range around
+	// zero and around every power of two - the results an interning / caching scheme for integers would key on
+	sweepSrc := []struct{ name, src string }{
+		{"+", "a + b"}, {"-", "a - c"}, {"*", "a1 * b"}, {"neg", "-n"}, {"^", "^x"}, {"|", "a1 | z"}, {"%", "a1 % big"}, {"<<", "h << b"}, {">>", "d >> b"},
+		{"++", "p++\np"}, {"--", "u--\nu"}, {"+=", "q += b\nq"},
+	}
+	type sw struct {
+		name string
+		stmt ast.Stmt
+	}
+	var sws []sw
+	for _, x := range sweepSrc {
+		st, err := parser.ParseSrc(x.src)
+		if err != nil {
+			o.Fail(Failure{Oracle: "sweep-template-parses", Key: "sweep-parse", Input: x.src, Detail: err.Error()})
+			continue
+		}
+		sws = append(sws, sw{x.name, st})
+	}
+	var targets []int64
+	if thorough {
+		for v := int64(-(1 << 18)); v <= 1<<18; v++ {
+			targets = append(targets, v)
+		}
+	} else {
+		for v := int64(-300); v <= 5000; v++ {
+			targets = append(targets, v)
+		}
+	}
+	for k := uint(13); k <= 40; k++ {
+		for d := int64(-130); d <= 130; d++ {
+			targets = append(targets, int64(1)<<k+d, -(int64(1)<<k)+d)
+		}
+	}
+	reported := map[string]bool{}
+	for _, v := range targets {
+		e := env.NewEnv()
+		for name, val := range map[string]int64{"a": v - 1, "b": 1, "c": -1, "a1": v, "n": -v, "x": ^v, "z": 0, "big": math.MaxInt64, "h": v >> 1, "d": v << 1, "u": v + 1, "p": v - 1, "q": v - 1} {
+			_ = e.Define(name, val)
+		}
+		for _, x := range sws {
+			if (x.name == "<<" && v&1 != 0) || (x.name == ">>" && (v<<1)>>1 != v) || (x.name == "%" && v < 0) {
+				continue
+			}
+			o.Sum.Evaluations++
+			o.Sum.Hist["sweep:"+x.name]++
+			got, err := func() (r interface{}, err error) {
+				defer func() {
+					if p := recover(); p != nil {
+						err = fmt.Errorf("panic: %v", p)
+					}
+				}()
+				return vm.RunContext(context.Background(), e.NewEnv(), nil, x.stmt)
+			}()
+			if gi, ok := got.(int64); err != nil || !ok || gi != v {
+				if !reported[x.name] {
+					reported[x.name] = true
+					o.Fail(Failure{Oracle: "go-arithmetic", Key: "int-result:" + x.name, Input: fmt.Sprintf("operator %s with operands chosen so that Go computes %d", x.name, v),
+						Detail: fmt.Sprintf("interpreter gave %v (%T), err=%v", got, got, err)})
+				}
+			}
+		}
 	}
 }
